@@ -108,6 +108,8 @@ func C22(run *Run) {
 	transitions += outB.Generated
 	nRuns := run.Pick(150, 3000)
 	traces := 0
+	abandoned := 0
+	defer func() { run.Coverage["schedules_abandoned_by_harness"] = abandoned }()
 	classes := map[string]int{}
 	doCfg := func(cfg qCfg, n int, scripts [][]string) {
 		var events []any
@@ -121,7 +123,13 @@ func C22(run *Run) {
 					qr = runQueueSchedule(cfg, r, nil)
 				}
 			}) {
-				run.Inconclusive("the gate scheduler itself got stuck in config %s run %d", cfg.Name, i)
+				// the harness' own scheduler did not finish this schedule (seen once under heavy machine load):
+				// the run is abandoned and counted; only a pattern of such runs makes the check inconclusive
+				abandoned++
+				if abandoned > 3 {
+					run.Inconclusive("the gate scheduler got stuck %d times (last: config %s run %d)", abandoned, cfg.Name, i)
+				}
+				continue
 			}
 			runs = append(runs, qr)
 			events = append(events, qr.Events...)
